@@ -152,6 +152,10 @@ def main():
     a = ap.parse_args()
     seed = int(os.environ.get("VERIF_SEED", "0") or 0)
     os.chdir(C.ROOT)
+    import loky
+    if not os.path.abspath(loky.__file__).startswith(os.path.abspath(C.REPO) + os.sep):
+        C.log(f"loky imported from {loky.__file__}, expected under {C.REPO}")
+        os._exit(2)
     try:
         rc = run(a.pid, a.tier, seed, a.replay)
     except C.Infra as e:
